@@ -17,7 +17,9 @@ lock operations is accepted exactly when it stays deadlock-free), and the generi
 (`Locks.locks_rank_ordered_no_deadlock`) gives: no reachable state of any number of such operations is deadlocked —
 the answer to "deadlocks between the stream table lock, the accept queue and the per-stream write lock".
 Assumptions (stated, not proved): a loop body is counted once; `sync.Cond.Wait` (which releases and re-takes `L`)
-and the one channel send performed under `streamsM` (`acceptCh <- newStream`, capacity 1024) eventually return. -/
+returns. The one channel operation performed under `streamsM` (`acceptCh <- newStream`) is a non-blocking `select`
+case since fix 31ee1ad (`Gen.Session.recvEnqueueNonBlocking`, `C12.c12_backlog_bounded`); before that fix it could
+park the receive loop inside the critical section for ever — the red team's accept-backlog finding. -/
 set_option maxRecDepth 100000
 
 namespace C12L
